@@ -337,11 +337,16 @@ class World:
         a = self.pick()
         qv = self._subset()
         fa = self.rng.random() < 0.5
-        how = self.rng.randrange(3)
+        how = self.rng.randrange(5)
         if how == 0:
             h = self.bdd.quantify(a.h, set(qv), forall=fa)
         elif how == 1:
             h = (self.bdd.forall if fa else self.bdd.exist)(list(qv), a.h)
+        elif how == 2:
+            # a one-shot iterable (the declared type is `Iterable`)
+            h = self.bdd.quantify(a.h, (v for v in qv), forall=fa)
+        elif how == 3:
+            h = (self.bdd.forall if fa else self.bdd.exist)(iter(qv), a.h)
         else:
             h = self.bdd.quantify(a.h, qv, fa)
         want = (self.sp.forall if fa else self.sp.exists)(a.tt, qv)
@@ -378,7 +383,16 @@ class World:
     def s_cube(self):
         qv = self._subset()
         d = {v: self.rng.random() < 0.5 for v in qv}
-        h = self.bdd.cube(d)
+        how = self.rng.randrange(4)
+        if how == 0:
+            # names only (all true), as a list or a one-shot iterable
+            d = {v: True for v in qv}
+            h = self.bdd.cube(list(qv))
+        elif how == 1:
+            d = {v: True for v in qv}
+            h = self.bdd.cube(iter(list(qv)))
+        else:
+            h = self.bdd.cube(d)
         self.accept('cube', h, self.sp.cube_table(d))
         return ('cube', tuple(sorted(d.items())))
 
@@ -492,8 +506,46 @@ class World:
             if den(e.h) != e.tt:
                 raise Violation('__copy__', 'duplicate-denotes-other-function',
                                 e.h)
+        # the duplicate is a manager in its own right: same order,
+        # exact counts (it inherits the external references)
+        try:
+            monitors.check_structure(c)
+            monitors.check_order_maps(c)
+            monitors.check_ledger(c, inherited)
+        except Violation as v:
+            v.site = '__copy__'
+            raise
+        if dict(c.vars) != dict(self.raw.vars):
+            raise Violation('__copy__', 'duplicate-has-another-order',
+                            (dict(c.vars), dict(self.raw.vars)))
+        # changes of the order in the duplicate stay in the duplicate
+        how = self.rng.randrange(4)
+        if how == 0:
+            c.declare('dup_only')
+        elif how == 1:
+            c.add_var('dup_only')
+        elif how == 2 and len(c.vars) >= 2:
+            c.swap(0, 1)
+        if how <= 2:
+            monitors.check_order_maps(c)
+            monitors.check_order_maps(self.raw)
+            if 'dup_only' in self.raw.vars or \
+                    set(self.raw.vars) != set(sp.names):
+                raise Violation('__copy__', 'original-changed-by-duplicate',
+                                dict(self.raw.vars))
+            if how <= 1:
+                got = c.undeclare_vars('dup_only')
+                if got != {'dup_only'}:
+                    raise Violation('__copy__', 'undeclare-in-duplicate',
+                                    got)
+            else:
+                c.swap(0, 1)
+            monitors.check_order_maps(c)
+            monitors.check_order_maps(self.raw)
+            self.ctx.count('clone_order_changes')
+        base = list(self.pool)   # what both managers hold
         for _ in range(self.rng.randint(1, 4)):
-            a, b = self.pick(), self.pick()
+            a, b = self.rng.choice(base), self.rng.choice(base)
             sym = self.rng.choice(BIN_SYMS)
             r = c.apply(sym, a.h, b.h)
             want = getattr(sp, BINOPS[sym])(a.tt, b.tt)
@@ -702,16 +754,35 @@ class World:
         other_levels = {v: i for i, v in enumerate(names)}
         if self.kind == 'bdd':
             other = self._b.BDD(other_levels)
-            v = self.raw.copy(a.h, other)
+            if self.rng.random() < 0.5:
+                v = self.raw.copy(a.h, other)
+            else:
+                v = self._b.copy_bdd(a.h, self.raw, other)
             other.incref(v)
             got = Denoter(other, self.sp)(v)
-            back = other.copy(v, self.raw)
+            if self.rng.random() < 0.5:
+                back = other.copy(v, self.raw)
+            else:
+                back = self._b.copy_bdd(v, other, self.raw)
             other.decref(v)
         else:
+            import dd._copy as _c
             other = self._a.BDD(other_levels)
-            v = self.bdd.copy(a.h, other)
-            got = Denoter(other, self.sp)(v.node)
-            back = other.copy(v, self.bdd)
+
+            def cp(u, target):
+                # every public route between two dd.autoref managers
+                route = self.rng.randrange(4)
+                self.ctx.count(f'copy_route_{route}')
+                if route == 0:
+                    return u.bdd.copy(u, target)
+                if route == 1:
+                    return self._a.copy_bdd(u, target)
+                if route == 2:
+                    return _c.copy_bdd(u, target)
+                return _c.copy_bdds_from([u], target)[0]
+            v = cp(a.h, other)
+            got = Denoter(other._bdd, self.sp)(v.node)
+            back = cp(v, self.bdd)
             del v
         if got != a.tt:
             raise Violation('copy', 'copy-denotes-other-function',
